@@ -120,22 +120,23 @@ CONSTANTS
  Vals <- ValsDef
  SS = 1
  T0 = %d
+ Starts = %s
  Sems = %s
  IOs = %s
 INVARIANT Denotes
-CHECK_DEADLOCK FALSE
+%sCHECK_DEADLOCK FALSE
 """
 
 
 def run_offline(name, formulas, maxt=3, maxn=3, vals=(-2, 1, 3), t0=0, workers=12, timeout=7200, expect_violation=False,
-                sems=("standard",), ios=("output",)):
+                sems=("standard",), ios=("output",), starts=(0,)):
     """exhaustive TLC run of DenseOffMC: the offline operational model denotes Dense!SigC for formulas x signal pairs"""
     wd = tlc.workdir(name)
     mod = "MC_" + name
     with open(os.path.join(wd, mod + ".tla"), "w") as f:
         f.write("---- MODULE %s ----\nEXTENDS DenseOffMC\nFormulasDef == %s\nValsDef == %s\n====\n" % (mod, tlc.tla_set(formulas), tlc.tla(set(vals))))
     with open(os.path.join(wd, mod + ".cfg"), "w") as f:
-        f.write(OCFG % (maxt, maxn, t0, tlc.tla(set(sems)), tlc.tla(set(ios))))
+        f.write(OCFG % (maxt, maxn, t0, tlc.tla(set(starts)), tlc.tla(set(sems)), tlc.tla(set(ios)), "INVARIANT SigDIsSigC\n" if len(starts) > 1 else ""))
     res = tlc.run(wd, mod, workers=workers, timeout=timeout, deadlock=True)
     tlc.ok_or_machinery(res, name)
     if expect_violation and not res["violated"]:
